@@ -52,7 +52,7 @@ def safeInt (n : Int) : Bool := decide (-9007199254740991 ≤ n ∧ n ≤ 900719
 def i32Int (n : Int) : Bool := decide (-2147483648 ≤ n ∧ n ≤ 2147483647)
 
 /-- a primitive in its specified encoding (doubles: a JSON number with a fraction or exponent, or one of the three
-strings; integers written for doubles are outside the documents compared) -/
+strings; a double written as an integer is `primCanon`'s business) -/
 def primOk : Prim → Doc → Bool
   | .string, .str _ => true
   | .integer, .int n => i32Int n
@@ -68,6 +68,21 @@ def primOk : Prim → Doc → Bool
   | .any, .null => false
   | .any, _ => true
   | _, _ => false
+
+/-- the binary64 bit pattern of an integer of magnitude below 2^53 (every such integer is a double, exactly) -/
+def intBits (n : Int) : Nat :=
+  let a := n.natAbs
+  if a = 0 then 0
+  else
+    let e := Nat.log2 a
+    (if n < 0 then 2 ^ 63 else 0) + (e + 1023) * 2 ^ 52 + (a - 2 ^ e) * 2 ^ (52 - e)
+
+/-- the canonical form of a primitive: itself — except that a double may be written as an integer (any JSON number
+is a double), whose canonical form is the double; integers of magnitude 2^53 and above, which need not be exactly
+representable, are outside the documents compared and are given no canonical form here -/
+def primCanon : Prim → Doc → Option Doc
+  | .double, .int n => if safeInt n then some (.dbl (.fin (intBits n))) else none
+  | p, d => if primOk p d then some d else none
 
 /-- a map key, as the text of the member name -/
 def keyPrimOk : Prim → Bytes → Bool
@@ -173,7 +188,7 @@ def unionPick (k1 : Key) (v1 : Doc) (k2 : Key) (v2 : Doc) : Option (Bytes × Doc
 contradicts the definition -/
 def canon (defs : Defs) (cfg : Cfg) : Nat → CTy → Doc → Option Doc
   | 0, _, _ => none
-  | _ + 1, .prim p, d => if primOk p d then some d else none
+  | _ + 1, .prim p, d => primCanon p d
   | fuel + 1, .optional t, d => match d with
     | .null => some .null
     | d => canon defs cfg fuel t d
